@@ -14,6 +14,7 @@ from common import show_list, frac_str
 LEVEL = "other"
 LEAN_PROPS = ["FastTicc.Props.C02", "FastTicc.Props.Compose", "FastTicc.Props.C03", "FastTicc.Props.C11", "FastTicc.Props.C18", "FastTicc.Props.C02matrix", "FastTicc.Props.C02opt", "FastTicc.Props.AdmmSolve", "FastTicc.Props.C02conv"]
 LEAN_HELPERS = ["FastTicc.Proofs.Admm", "FastTicc.Proofs.Compose", "FastTicc.Proofs.AdmmMatrix", "FastTicc.Proofs.LogDet"]
+LEAN_TRANSLATED = {"FastTicc.Props.TrSoft": ["soft_threshold_prox"]}
 RULE = ("(a) step functions (soft threshold, lambda sum, Z update, U update, stopping rule) on dyadic inputs for all (N,W) "
         "with NW<=8 (thorough: <=24), scalar and matrix lambda, rho in {1/8..8}, vs the model at Rat; X update against its "
         "stationarity characterisation; (b) the entry point on generated PSD covariances (full rank, rank deficient, "
@@ -179,6 +180,17 @@ def _run_main(ctx):
         for a, mo in zip(impl, ctx.driver.run(lines)):
             if not oracles.rel_close(a, float(Fraction(mo)), 1e-13, 1e-15):
                 ctx.violation("correspondence-break", "softThreshold vs soft_threshold_prox", {"step": True, "NW": [1, 1]})
+        # the function TRANSLATED from the source (Generated/Kernels.lean), at exact rationals, on arguments for which the
+        # double division is exact (the divisor a power of two): exact agreement with the implementation
+        gen_cases = []
+        for _ in range(200 if ctx.quick() else 2000):
+            s_ = Fraction(ctx.rng.randint(-64, 64), 8)
+            lam_ = Fraction(ctx.rng.randint(0, 32), 8)
+            rr_ = Fraction(2) ** ctx.rng.randint(-3, 3)
+            got = solver.soft_threshold_prox(float(s_), float(lam_), float(rr_))
+            gen_cases.append((f"{frac_str(s_)} {frac_str(lam_)} {frac_str(rr_)}", "ok " + frac_str(Fraction(float(got))),
+                              {"step": True, "soft": [str(s_), str(lam_), str(rr_)]}))
+        ctx.gen_compare("soft_threshold_prox", gen_cases)
         # X update characterisation
         for _ in range(30 if ctx.quick() else 300):
             n = ctx.rng.randint(1, 8)
